@@ -38,7 +38,10 @@ impl<'a> expr::Visitor<'a, ast::Expr> for FromExprVisitor {
             crate::data_type::value::Value::Bytes(_) => todo!(),
             crate::data_type::value::Value::Struct(_) => todo!(),
             crate::data_type::value::Value::Union(_) => todo!(),
-            crate::data_type::value::Value::Optional(_) => todo!(),
+            crate::data_type::value::Value::Optional(o) => match o.as_deref() {
+                Some(v) => self.value(v),
+                None => ast::Expr::Value(ast::Value::Null),
+            },
             crate::data_type::value::Value::List(l) => ast::Expr::Tuple(
                 l.to_vec()
                     .iter()
